@@ -153,6 +153,7 @@ func runC06(c *Ctx) {
 	if rnl := c.MustFunc("C06-R7", "internal/parser.ContentReader.readNextLine"); rnl != nil {
 		linesPublishedBlanked(c, "C06-R7", rnl)
 	}
+	c06WhitespaceIsContent(c)
 }
 
 func c06Literal(c *Ctx, fi *FuncInfo, info *types.Info, cl *ast.CompositeLit) {
@@ -1026,4 +1027,36 @@ func containsBranch(n ast.Node) bool {
 		return true
 	})
 	return found
+}
+
+// c06WhitespaceIsContent: positions are byte-exact; inside block and quoted
+// scalars spaces on an otherwise empty line belong to the value. The
+// reconstruction therefore never looks at a trimmed form of a source line
+// (strings.Trim*, strings.Fields): a line is "empty" only if its length is 0.
+func c06WhitespaceIsContent(c *Ctx) {
+	fi := c.MustFunc("C06-R7", "internal/diags.NewPositionRange")
+	if fi == nil {
+		return
+	}
+	info := fi.Pkg.TypesInfo
+	linesP := paramObj(fi, 0)
+	bad := ""
+	ast.Inspect(fi.Decl.Body, func(n ast.Node) bool {
+		call, ok := n.(*ast.CallExpr)
+		if !ok {
+			return true
+		}
+		fn := Callee(info, call)
+		if fn == nil || fn.Pkg() == nil || fn.Pkg().Path() != "strings" || !(strings.HasPrefix(fn.Name(), "Trim") || strings.HasPrefix(fn.Name(), "Fields")) {
+			return true
+		}
+		for _, a := range call.Args {
+			if mentionsObj(info, a, linesP) {
+				bad = roleStr(info, call)
+			}
+		}
+		return true
+	})
+	c.Check(bad == "", "C06-R7", "NewPositionRange:source lines are never trimmed", fi.Decl.Pos(), "whitespace is content",
+		"`"+bad+"` looks at a trimmed source line: a whitespace-only line inside a block or quoted scalar carries characters of the value; treating it as empty desynchronises value and source, and every later position of the field is wrong")
 }
